@@ -582,6 +582,27 @@ fn case_iter(kv: &Kv) -> String {
     for op in &ops {
         op.apply_to_hook(&mut cap).unwrap();
     }
+    // whole-list iteration (AllChangesIter) over the same ops, reached through the public
+    // UnifiedDiffHunk::new(ops, diff, ..).iter_changes() on a TextDiff of the items as strings
+    let olds: Vec<String> = old.iter().map(|x| x.to_string()).collect();
+    let news: Vec<String> = new.iter().map(|x| x.to_string()).collect();
+    let oref: Vec<&str> = olds.iter().map(|x| x.as_str()).collect();
+    let nref: Vec<&str> = news.iter().map(|x| x.as_str()).collect();
+    let td = similar::TextDiff::from_slices(&oref, &nref);
+    let hunk = similar::udiff::UnifiedDiffHunk::new(ops.clone(), &td, true);
+    let all: Vec<String> = hunk
+        .iter_changes()
+        .map(|c| {
+            format!(
+                "{}:{}:{}:{}",
+                fmt_tag(c.tag()),
+                fmt_opt(c.old_index()),
+                fmt_opt(c.new_index()),
+                c.value()
+            )
+        })
+        .collect();
+    let all_same = all == ch;
     let j = |v: Vec<String>| {
         if v.is_empty() {
             "-".to_string()
@@ -590,10 +611,11 @@ fn case_iter(kv: &Kv) -> String {
         }
     };
     format!(
-        "changes={} slices={} recap={}",
+        "changes={} slices={} recap={} all_same={}",
         j(ch),
         j(sl),
-        fmt_calls(&ops_to_calls(cap.ops()))
+        fmt_calls(&ops_to_calls(cap.ops())),
+        if all_same { 1 } else { 0 }
     )
 }
 
